@@ -5,6 +5,9 @@ import RactorModel.Lemmas.Mux
 import RactorModel.Lemmas.RacingScan
 import RactorModel.Lemmas.RemoteComplete
 import RactorModel.Lemmas.Advert
+import RactorModel.Lemmas.Compose
+import RactorModel.Lemmas.SenderAdvert
+import RactorModel.Model.Fields
 import RactorModel.Extracted
 
 /-!
@@ -816,5 +819,430 @@ example :
 #print axioms C20.failed_connect_reports_error_and_creates_no_session
 #print axioms C20.listener_survives_accept_errors
 #print axioms C20.listener_oracle_model
+
+
+/-! ## Round 4, wave 2: ONE composed system (`Model/Compose.lean`)
+
+`Compose.Sys` = one `Net` per reference × ONE shared wire per direction × ONE `Link` (session,
+transport errors, `NodeSession`, `Mirror`), with explicit coupling. The end-to-end clauses are
+proved about IT by refinement to the component theorems above. -/
+
+/-- (refinement + coupling) In every run of the composed system, the state of every reference is a
+run of `Net` (so every `Net` theorem holds for it), the session is a run of `Link`, and the private
+pipes of the `Net` of reference `p` are — at every moment — exactly the shared wires restricted to
+the elements addressed `to = p`: the shared connection IS a private FIFO pipe per reference. -/
+theorem composed_system_refines_its_components (k k' : Nat) (ops : List Compose.Op) :
+    let s := Compose.run (Compose.init k k') ops
+    (∀ p, ∃ nops, s.nets p = (Net.init k k').run nops) ∧
+    (∃ evs, s.link = Link.run {} evs) ∧
+    (∀ p, (s.nets p).fwd = Compose.projPipe p s.fwd ∧ (s.nets p).back = Compose.projPipe p s.back) := by
+  intro s
+  obtain ⟨h1, h2⟩ := Compose.run_refines ops (Compose.init k k')
+  have hi := Compose.inv_run ops _ (Compose.inv_init k k')
+  exact ⟨h1, h2, fun p => ⟨hi.fwd p, hi.back p⟩⟩
+
+/-- (the right actor, the same frame) When a shared forward stage hands on a frame addressed to
+`p`: the frame that leaves the shared wire is that very frame; it is the frame the `Net` of `p`
+takes out of its own view; the `Net` of `p` — and of no other reference — makes its `moveF` step
+(B's session hands the frame to the original `p`, which logs the same variant / sender / arguments). -/
+theorem composed_wire_hands_each_frame_to_the_original_named_by_to (k k' : Nat) (ops : List Compose.Op)
+    (i p : Nat) (f : Frame)
+    (hh : Compose.headAt i (Compose.run (Compose.init k k') ops).fwd = some (p, f)) :
+    let s := Compose.run (Compose.init k k') ops
+    ((s.nets p).fwd.move i).2 = (s.fwd.move i).2.map (·.2) ∧
+    (∀ e, (s.fwd.move i).2 = some e → e = (p, f)) ∧
+    (Compose.step s (.moveF i)).nets p = (s.nets p).step (.moveF i) ∧
+    (∀ q, q ≠ p → (Compose.step s (.moveF i)).nets q = s.nets q) := by
+  intro s
+  have hi := Compose.inv_run ops _ (Compose.inv_init k k')
+  obtain ⟨_, w2, w3, _⟩ := Compose.projPipe_move i s.fwd p f hh
+  refine ⟨by rw [hi.fwd p]; exact w2, w3, ?_, ?_⟩
+  · have hh' : Compose.headAt i s.fwd = some (p, f) := hh
+    simp only [Compose.step, hh']; exact Compose.upd_self _ _ _
+  · intro q hq
+    have hh' : Compose.headAt i s.fwd = some (p, f) := hh
+    simp only [Compose.step, hh']; exact Compose.upd_other _ _ _ _ hq
+
+/-- (a reply goes to the proxy named by `to` only) the same for the shared backward wire: the
+reply leaving it is put into the mailbox of the proxy of `p` and of no other. -/
+theorem composed_reply_goes_only_to_the_proxy_named_by_to (k k' : Nat) (ops : List Compose.Op)
+    (i p : Nat) (r : Reply)
+    (hh : Compose.headAt i (Compose.run (Compose.init k k') ops).back = some (p, r)) :
+    let s := Compose.run (Compose.init k k') ops
+    ((s.nets p).back.move i).2 = (s.back.move i).2.map (·.2) ∧
+    (∀ e, (s.back.move i).2 = some e → e = (p, r)) ∧
+    (Compose.step s (.moveB i)).nets p = (s.nets p).step (.moveB i) ∧
+    (∀ q, q ≠ p → (Compose.step s (.moveB i)).nets q = s.nets q) := by
+  intro s
+  have hi := Compose.inv_run ops _ (Compose.inv_init k k')
+  obtain ⟨_, w2, w3, _⟩ := Compose.projPipe_move i s.back p r hh
+  refine ⟨by rw [hi.back p]; exact w2, w3, ?_, ?_⟩
+  · have hh' : Compose.headAt i s.back = some (p, r) := hh
+    simp only [Compose.step, hh']; exact Compose.upd_self _ _ _
+  · intro q hq
+    have hh' : Compose.headAt i s.back = some (p, r) := hh
+    simp only [Compose.step, hh']; exact Compose.upd_other _ _ _ _ hq
+
+/-- (end to end, clauses 1–2) Through ANY reference `p` of the composed system — whatever the
+other references, the shared wires, the session and the control stream do — what the original `p`
+has received is a prefix of what was sent through `p` (same variant, sender and arguments, nothing
+invented, duplicated or reordered), per sender in sending order, and with the original alive, the
+proxy running and everything drained it is exactly what was sent. -/
+theorem composed_delivery_is_fifo_per_sender_with_the_same_fields (k k' : Nat) (ops : List Compose.Op)
+    (p sender : Nat) :
+    let s := Compose.run (Compose.init k k') ops
+    let n := s.nets p
+    n.recvd <+: n.sent ∧
+    (n.recvd.filter (·.sender == sender)) <+: (n.sent.filter (·.sender == sender)) ∧
+    (n.targetUp = true → Compose.accepts s p = true → n.quiet = true → n.recvd = n.sent) := by
+  intro s n
+  obtain ⟨nops, hn⟩ := (Compose.run_refines ops (Compose.init k k')).1 p
+  have h1 := order_preserved k k' nops
+  have h2 := per_sender_order k k' nops sender
+  have h3 := delivered_at_rest k k' nops
+  have e : n = (Net.init k k').run nops := hn
+  dsimp only at h1 h2 h3
+  rw [← e] at h1 h2 h3
+  refine ⟨h1.1, h2, fun ht ha hq => h3 ht ?_ hq⟩
+  simp only [Compose.accepts, Compose.running, Bool.and_eq_true] at ha
+  exact ha.2
+
+/-- (references are isolated) Nothing done through, by or to another reference `q` — sends, its
+proxy handling a message, its original answering, dropping or exiting, its callers giving up — touches
+the state of reference `p` (tags, pending calls, mailbox, what its original received, what its
+callers got). Together with the two `…named_by_to` theorems: the only steps that change reference
+`p` are those addressed to `p`, the moves of ITS frames / replies on the shared wires, and the
+session's own events. -/
+theorem composed_references_are_isolated (s : Compose.Sys) (p q : Nat) (h : p ≠ q) (a b : Nat) :
+    (Compose.step s (.cast q a b)).nets p = s.nets p ∧ (Compose.step s (.call q a b)).nets p = s.nets p ∧
+    (Compose.step s (.abandon q a)).nets p = s.nets p ∧ (Compose.step s (.proxy q)).nets p = s.nets p ∧
+    (Compose.step s (.answer q a b)).nets p = s.nets p ∧ (Compose.step s (.drop q a)).nets p = s.nets p ∧
+    (Compose.step s (.targetExit q)).nets p = s.nets p := by
+  refine ⟨?_, ?_, ?_, ?_, ?_, ?_, ?_⟩ <;> simp only [Compose.step] <;> (try split) <;>
+    first | rfl | exact Compose.upd_other _ _ _ _ h
+
+/-- (nothing is lost on the SHARED wire) With the original alive and the proxy running, what was sent
+through reference `p` is exactly: what the original has received, then the frames addressed to `p`
+that are on the shared wire (oldest first, whatever other references' frames are between them),
+then the casts / calls still in the proxy's mailbox — in this order. -/
+theorem composed_nothing_is_lost_on_the_shared_wire (k k' : Nat) (ops : List Compose.Op) (p : Nat) :
+    let s := Compose.run (Compose.init k k') ops
+    let n := s.nets p
+    n.targetUp = true → Compose.accepts s p = true →
+      n.recvd ++ ((Pipe.contents (Compose.projPipe p s.fwd)).map (·.item) ++ n.mboxItems) = n.sent := by
+  intro s n ht ha
+  obtain ⟨nops, hn⟩ := (Compose.run_refines ops (Compose.init k k')).1 p
+  have hi := Compose.inv_run ops _ (Compose.inv_init k k')
+  have h1 := order_preserved k k' nops
+  have e : n = (Net.init k k').run nops := hn
+  dsimp only at h1
+  rw [← e] at h1
+  simp only [Compose.accepts, Compose.running, Bool.and_eq_true] at ha
+  have h2 := h1.2 ht ha.2
+  simp only [Net.inflight] at h2
+  rw [show n.fwd = Compose.projPipe p s.fwd from hi.fwd p] at h2
+  exact h2
+
+/-- (end to end, clause 3) Through any reference `p`: a caller only ever gets the answer the
+original gave to ITS call, at most once; and with the proxy running and everything drained every
+answer has reached its caller unless that caller had given up. -/
+theorem composed_replies_reach_exactly_their_caller (k k' : Nat) (ops : List Compose.Op) (p : Nat) :
+    let s := Compose.run (Compose.init k k') ops
+    let n := s.nets p
+    (∀ q d, (q, d) ∈ n.delivered → (q, d) ∈ n.answered) ∧ (n.delivered.map (·.1)).Nodup ∧
+    (Compose.accepts s p = true → n.quiet = true → ∀ e ∈ n.answered, e ∈ n.delivered ∨ e.1 ∈ n.closed) := by
+  intro s n
+  obtain ⟨nops, hn⟩ := (Compose.run_refines ops (Compose.init k k')).1 p
+  have h1 := replies_not_cross_wired k k' nops
+  have h2 := reply_at_most_once k k' nops
+  have h3 := replies_complete_at_rest k k' nops
+  have e : n = (Net.init k k').run nops := hn
+  dsimp only at h1 h2 h3
+  rw [← e] at h1 h2 h3
+  refine ⟨h1, h2.1, fun ha hq => (h3 ?_).2 hq⟩
+  simp only [Compose.accepts, Compose.running, Bool.and_eq_true] at ha
+  exact ha.2
+
+/-- (sends succeed iff the proxy actor runs — DERIVED) `accepts s p` is the status of the proxy
+actor of `p` in the composed state (made by `get_or_spawn_remote_actor` and not stopped). It is a
+THEOREM that this holds exactly when `p` is in `remote_actors`; an accepted cast enters the proxy's
+mailbox and the `sent` log, a refused one changes nothing of the reference and is reported as an
+error; and a reference that is a member of any group accepts sends. -/
+theorem composed_send_succeeds_iff_proxy_runs (k k' : Nat) (ops : List Compose.Op) (p a b : Nat) :
+    let s := Compose.run (Compose.init k k') ops
+    let s' := Compose.step s (.cast p a b)
+    (Compose.accepts s p = true ↔ p ∈ s.link.mirror.proxies) ∧
+    (Compose.accepts s p = true →
+      (s'.nets p).sent = (s.nets p).sent ++ [⟨false, a, b⟩] ∧ s'.accepted = s.accepted ++ [(p, ⟨false, a, b⟩)] ∧
+      s'.refused = s.refused) ∧
+    (Compose.accepts s p = false →
+      s'.nets p = s.nets p ∧ s'.accepted = s.accepted ∧ s'.refused = s.refused ++ [(p, ⟨false, a, b⟩)]) ∧
+    (∀ g, Compose.inGroup s g p = true → Compose.accepts s p = true) := by
+  intro s s'
+  have hi := Compose.inv_run ops _ (Compose.inv_init k k')
+  obtain ⟨evs, hl⟩ := (Compose.run_refines ops (Compose.init k k')).2
+  have hm : Compose.MInv s.link.mirror := by
+    rw [hl]; exact Compose.minv_run evs _ (by intro e he; simp [Compose.init] at he)
+  have hst : Compose.accepts s p = true ↔ p ∈ s.link.mirror.proxies := by
+    rw [show Compose.accepts s p = s.link.mirror.proxies.contains p from hi.status p]
+    exact List.contains_iff_mem
+  refine ⟨hst, fun h => ?_, Compose.cast_refused s p a b, fun g hg => ?_⟩
+  · obtain ⟨c1, _, c3, c4⟩ := Compose.cast_accepted s p a b h
+    exact ⟨c1, c3, c4⟩
+  · rw [hst]
+    simp only [Compose.inGroup, List.contains_iff_mem] at hg
+    exact hm _ hg
+
+/-- (end to end, clauses 6–7: the session closes) After ANY transport error reported to the
+reader or the writer task, once the session and the `NodeSession` have handled their stop signals:
+for EVERY reference the proxy actor is stopped — sends through it fail and change nothing — and it
+is in no group; and this stays so whatever happens afterwards. `accepts` here is the proxy's
+status in the composed state, not membership in a table. -/
+theorem composed_transport_error_stops_every_reference (k k' : Nat) (ops more : List Compose.Op)
+    (hf : (Compose.run (Compose.init k k') ops).link.faulted = true) (p : Nat) :
+    let t := Compose.run (Compose.settle (Compose.run (Compose.init k k') ops)) more
+    Compose.accepts t p = false ∧ (∀ g, Compose.inGroup t g p = false) ∧
+      ∀ a b, (Compose.step t (.cast p a b)).nets p = t.nets p ∧
+        (Compose.step t (.cast p a b)).refused = t.refused ++ [(p, ⟨false, a, b⟩)] := by
+  intro t
+  obtain ⟨evs, hl⟩ := (Compose.run_refines ops (Compose.init k k')).2
+  have hli : Link.Inv (Compose.run (Compose.init k k') ops).link := by
+    rw [hl]; exact Link.inv_run evs _ Link.inv_init
+  have hd := Link.settle_down _ hli hf
+  obtain ⟨evs', hl'⟩ := (Compose.run_refines more (Compose.settle (Compose.run (Compose.init k k') ops))).2
+  rw [Compose.settle_link] at hl'
+  have hd' := (Link.down_run evs' _ hd).1
+  have hmir : t.link.mirror = {} := by rw [hl']; exact hd'.mirror
+  have hi : Compose.Inv t := Compose.inv_run more _ (Compose.inv_step _ _ (Compose.inv_step _ _
+    (Compose.inv_run ops _ (Compose.inv_init k k'))))
+  have ha : Compose.accepts t p = false := by
+    simp only [Compose.accepts, hi.status p, hmir]; rfl
+  refine ⟨ha, fun g => by simp only [Compose.inGroup, hmir]; rfl, fun a b => ?_⟩
+  obtain ⟨c1, _, c3⟩ := Compose.cast_refused t p a b ha
+  exact ⟨c1, c3⟩
+
+/-- (end to end, clauses 6–7: the original stops) When the peer announces the end of the original
+of a LIVE reference `p` (`Terminate`), its proxy actor is stopped for good: whatever happens
+afterwards (including later control messages) sends through it fail and it is in no group. -/
+theorem composed_terminate_stops_the_reference_for_good (k k' : Nat) (ops more : List Compose.Op)
+    (p : Nat) (pids : List Nat) (hp : p ∈ pids)
+    (hlive : Compose.accepts (Compose.run (Compose.init k k') ops) p = true) :
+    let t := Compose.run (Compose.step (Compose.run (Compose.init k k') ops) (.link (.ctl (.terminate pids)))) more
+    Compose.accepts t p = false ∧ (∀ g, Compose.inGroup t g p = false) ∧
+      ∀ a b, (Compose.step t (.cast p a b)).nets p = t.nets p := by
+  intro t
+  have hi0 := Compose.inv_run ops _ (Compose.inv_init k k')
+  have hi1 := Compose.inv_step _ (.link (.ctl (.terminate pids))) hi0
+  have hi : Compose.Inv t := Compose.inv_run more _ hi1
+  -- after the step `p` is not in `remote_actors`
+  have hnot : p ∉ (Compose.step (Compose.run (Compose.init k k') ops) (.link (.ctl (.terminate pids)))).link.mirror.proxies := by
+    simp only [Compose.step, Compose.restrictEv, Compose.restrict, Link.step]
+    split
+    · simp [Mirror.step, hp]
+    · rename_i hn
+      obtain ⟨evs, hl⟩ := (Compose.run_refines ops (Compose.init k k')).2
+      have hli : Link.Inv (Compose.run (Compose.init k k') ops).link := by
+        rw [hl]; exact Link.inv_run evs _ Link.inv_init
+      have : (Compose.run (Compose.init k k') ops).link.nodeUp = false := by simpa [Link.isClose] using hn
+      rw [hli.node this]; simp
+  have hmade : (Compose.run (Compose.init k k') ops).made.contains p = true := by
+    simp only [Compose.accepts, Compose.running, Bool.and_eq_true] at hlive
+    exact hlive.1
+  have hstop : Compose.stopped (Compose.step (Compose.run (Compose.init k k') ops) (.link (.ctl (.terminate pids)))) p = true := by
+    have hr := hi1.status p
+    have hc : (Compose.step (Compose.run (Compose.init k k') ops) (.link (.ctl (.terminate pids)))).link.mirror.proxies.contains p = false := by
+      simpa using hnot
+    rw [hc] at hr
+    have hm1 : (Compose.step (Compose.run (Compose.init k k') ops) (.link (.ctl (.terminate pids)))).made.contains p = true := by
+      have : p ∈ (Compose.run (Compose.init k k') ops).made := by simpa using hmade
+      simp [Compose.step, this]
+    simp only [Compose.running, hm1, Bool.true_and] at hr
+    simp only [Compose.stopped, hm1, hr, Bool.true_and, Bool.not_false]
+  have hst := Compose.stopped_run more _ p hstop
+  have ha : Compose.accepts t p = false := by
+    have h2 : (t.nets p).linkUp = false := by
+      have := hst
+      simp only [Compose.stopped, Bool.and_eq_true, Bool.not_eq_true'] at this
+      exact this.2
+    simp only [Compose.accepts, Compose.running, h2, Bool.and_false]
+  obtain ⟨evs, hl⟩ := (Compose.run_refines (ops ++ [.link (.ctl (.terminate pids))] ++ more) (Compose.init k k')).2
+  have ht : t = Compose.run (Compose.init k k') (ops ++ [.link (.ctl (.terminate pids))] ++ more) := by
+    simp [t, Compose.run, List.foldl_append]
+  have hm : Compose.MInv t.link.mirror := by
+    rw [ht, hl]; exact Compose.minv_run evs _ (by intro e he; simp [Compose.init] at he)
+  refine ⟨ha, fun g => ?_, fun a b => (Compose.cast_refused t p a b ha).1⟩
+  cases hg : Compose.inGroup t g p with
+  | false => rfl
+  | true =>
+    simp only [Compose.inGroup, List.contains_iff_mem] at hg
+    have := hm _ hg
+    have hr := hi.status p
+    simp only [Compose.accepts] at ha
+    rw [ha] at hr
+    have : t.link.mirror.proxies.contains p = true := by simpa using this
+    rw [this] at hr; simp at hr
+
+/-- two references over ONE wire: interleaved frames reach the right originals, the reply of a call
+through reference 2 reaches its caller only -/
+def composedDemo : Compose.Sys := Compose.run (Compose.init 0 0)
+  [.link (.ctl (.spawn [1, 2])), .cast 1 7 10, .cast 2 8 20, .cast 1 7 11, .call 2 9 30, .proxy 1, .proxy 2,
+   .proxy 1, .proxy 2, .moveF 0, .moveF 0, .moveF 0, .moveF 0, .answer 2 0 99, .moveB 0, .proxy 2]
+
+example : (composedDemo.nets 1).recvd = [⟨false, 7, 10⟩, ⟨false, 7, 11⟩] ∧
+    (composedDemo.nets 2).recvd = [⟨false, 8, 20⟩, ⟨true, 9, 30⟩] ∧
+    (composedDemo.nets 2).delivered = [(0, 99)] ∧ (composedDemo.nets 1).delivered = [] ∧
+    Compose.accepts composedDemo 1 = true ∧ Compose.accepts composedDemo 3 = false := by decide
+
+/-- the original of 1 stops: sends to 1 fail (even if it were re-advertised), 2 still works -/
+def composedDemoT : Compose.Sys := Compose.step composedDemo (.link (.ctl (.terminate [1])))
+
+example : Compose.accepts composedDemoT 1 = false ∧ Compose.accepts composedDemoT 2 = true ∧
+    Compose.accepts (Compose.step composedDemoT (.link (.ctl (.spawn [1])))) 1 = false := by decide
+
+/-- a read error: after the cascade reference 2 refuses sends too -/
+def composedDemoU : Compose.Sys := Compose.settle (Compose.step composedDemoT (.link (.read .err)))
+
+example : composedDemoU.link.faulted = true ∧ Compose.accepts composedDemoU 2 = false ∧
+    (Compose.step composedDemoU (.cast 2 1 1)).refused = [(2, ⟨false, 1, 1⟩)] := by decide
+
+/-! ### the sending side of the advertisement (`Model/SenderAdvert.lean`) -/
+
+/-- (clause 4, sender side) For every interleaving of actors starting and stopping on other threads
+with the session's `monitor` registration, its pid scan and its handling of the queued lifecycle
+events (actors that exist before the registration, that start BETWEEN registration and scan, that
+start later): once the scan is done and the queued events are handled, the control stream the
+session has emitted advertises exactly the remotable actors that are alive — and so (receiver side,
+`proxies_mirror_control_stream`) the peer's `remote_actors` are exactly those actors. -/
+theorem every_remotable_actor_is_advertised_by_the_sender (ops : List SenderAdvert.Op) :
+    let s := SenderAdvert.run {} ops
+    s.scanned = true → s.queue = [] →
+      ∀ i, (advertised i s.wire = true ↔ i ∈ s.alive) ∧ (i ∈ (Mirror.run {} s.wire).proxies ↔ i ∈ s.alive) := by
+  intro s hs hq i
+  have h := (SenderAdvert.inv_run ops {} SenderAdvert.inv_init).done hs i
+  have hq' : (SenderAdvert.run {} ops).queue = [] := hq
+  have h1 : advertised i s.wire = true ↔ i ∈ s.alive := by
+    simp only [SenderAdvert.pend, hq', List.map_nil, List.append_nil] at h
+    simp only [advertised, beq_iff_eq]
+    exact h
+  exact ⟨h1, ((proxies_mirror_control_stream s.wire i).1).trans h1⟩
+
+/-- (at most twice, at most once outside the race window) However actors start and stop around the
+registration and the scan: an actor that registers once is named by at most TWO `Spawn` messages of
+the session (sent or still queued) — the scan and its own lifecycle event — and by at most ONE once
+the scan is over when it registers (every actor spawned later is advertised at most once; with
+`every_remotable_actor_is_advertised_by_the_sender`: exactly once while it lives). -/
+theorem an_actor_is_advertised_at_most_twice (pre post : List SenderAdvert.Op) (i : Nat)
+    (h1 : (pre ++ post).count (.start i) ≤ 1) :
+    let s := SenderAdvert.run {} (pre ++ post)
+    SenderAdvert.spawnCount i (s.wire ++ s.queue.map SenderAdvert.Evt.ctl) ≤ 2 ∧
+    ((SenderAdvert.run {} pre).scanned = true → pre.count (.start i) = 0 →
+      SenderAdvert.spawnCount i ((SenderAdvert.run {} pre).wire ++ (SenderAdvert.run {} pre).queue.map SenderAdvert.Evt.ctl) = 0 →
+      SenderAdvert.spawnCount i (s.wire ++ s.queue.map SenderAdvert.Evt.ctl) ≤ 1) := by
+  intro s
+  have hs : SenderAdvert.run (SenderAdvert.run {} pre) post = s := by
+    simp [s, SenderAdvert.run, List.foldl_append]
+  have ha : SenderAdvert.spawnCount i (s.wire ++ s.queue.map SenderAdvert.Evt.ctl) + SenderAdvert.un s.scanned ≤
+      0 + 1 + (pre ++ post).count (.start i) := SenderAdvert.spawnCount_run i (pre ++ post) {}
+  have hb : SenderAdvert.spawnCount i (s.wire ++ s.queue.map SenderAdvert.Evt.ctl) + SenderAdvert.un s.scanned ≤
+      SenderAdvert.spawnCount i ((SenderAdvert.run {} pre).wire ++ (SenderAdvert.run {} pre).queue.map SenderAdvert.Evt.ctl) +
+        SenderAdvert.un (SenderAdvert.run {} pre).scanned + post.count (.start i) := by
+    have := SenderAdvert.spawnCount_run i post (SenderAdvert.run {} pre)
+    rw [hs] at this
+    exact this
+  refine ⟨by omega, ?_⟩
+  intro hsc hc h0
+  rw [h0, hsc] at hb
+  have hu : SenderAdvert.un true = 0 := rfl
+  rw [hu] at hb
+  have : post.count (.start i) ≤ 1 := by
+    rw [List.count_append] at h1; omega
+  omega
+
+/-- "exactly once" does NOT hold on the wire: an actor that starts between the registration and
+the scan is advertised twice (harmless: `get_or_spawn_remote_actor` is idempotent — the theorem
+above is about the verdict of the stream); one that starts later is advertised once. -/
+example :
+    (SenderAdvert.run {} [.start 1, .monitor, .start 2, .scan, .evt, .start 3, .evt]).wire =
+      [.spawn [1, 2], .spawn [2], .spawn [3]] := by decide
+
+example : let s := SenderAdvert.run {} [.start 1, .monitor, .start 2, .stop 1, .scan, .evt, .evt, .stop 2, .evt]
+    s.wire = [.spawn [2], .spawn [2], .terminate [1], .terminate [2]] ∧ s.alive = [] := by decide
+
+/-! ### the fields of a message (`Model/Fields.lean`) -/
+
+/-- (clause 1: the same variant, arguments and metadata) Whatever batch of casts / calls the
+proxies of a session hand over (`Fields.proxyMsg`: reference, fresh tag, timeout), however the
+transport cuts the byte stream into pieces: the receiving `NodeSession` hands to the original named
+by each message's reference exactly the message's variant, argument bytes and metadata, in the
+same order — provided the prost codec round-trips (`dec (enc m) = some m`, a hypothesis: prost is
+outside the model) and the encoded messages fit the frame limit. -/
+theorem fields_reach_the_original_unchanged (enc : Fields.NodeMsg → Codec.Bytes) (dec : Codec.Bytes → Option Fields.NodeMsg)
+    (hrt : ∀ m, dec (enc m) = some m) (max : Nat)
+    (sends : List (Nat × Nat × Option Nat × Fields.Ser))
+    (hmax : ∀ e ∈ sends, (enc (Fields.proxyMsg e.1 e.2.1 e.2.2.1 e.2.2.2)).length ≤ max ∧
+      (enc (Fields.proxyMsg e.1 e.2.1 e.2.2.1 e.2.2.2)).length ≤ Codec.isizeMax)
+    (chunks : List Codec.Bytes)
+    (hs : chunks.flatten = Fields.stream enc (sends.map fun e => Fields.proxyMsg e.1 e.2.1 e.2.2.1 e.2.2.2)) :
+    ((Link.run ({} : Link.S Fields.NodeMsg) (Link.readerEvents dec max chunks)).recvd.map Fields.deliver) =
+      sends.map fun e => (e.1, e.2.2.2) := by
+  have h := frames_reach_node_session_under_any_fragmentation dec max
+    ((sends.map fun e => Fields.proxyMsg e.1 e.2.1 e.2.2.1 e.2.2.2).map enc) chunks
+    (by rw [hs]; rfl)
+    (by
+      intro p hp
+      simp only [List.mem_map] at hp
+      obtain ⟨m, ⟨e, he, rfl⟩, rfl⟩ := hp
+      exact hmax e he)
+    (by
+      intro p hp
+      simp only [List.mem_map] at hp
+      obtain ⟨m, _, rfl⟩ := hp
+      simp [hrt])
+  rw [h]
+  simp only [List.filterMap_map, List.map_filterMap]
+  have : (fun x : Nat × Nat × Option Nat × Fields.Ser => Option.map Fields.deliver
+      (((dec ∘ enc) ∘ fun e => Fields.proxyMsg e.1 e.2.1 e.2.2.1 e.2.2.2) x)) = fun e => some (e.1, e.2.2.2) := by
+    funext e
+    simp [Function.comp, hrt, Fields.deliver, Fields.proxyMsg]
+  rw [this]
+  simp
+
+example : Fields.deliver (Fields.proxyMsg 5 3 (some 100) ⟨true, "Get", [1, 2], some [9]⟩) =
+    (5, ⟨true, "Get", [1, 2], some [9]⟩) := by decide
+
+/-! ### E-SRC ties of the wave-2 models (regenerated from the sources on every check) -/
+
+/-- `after_authenticated` registers the pid monitor BEFORE it scans the pid registry, sends the one
+`Spawn`, then registers the pg monitors and scans the groups (`Model/SenderAdvert.lean`: `monitor`
+precedes `scan`; with the opposite order an actor starting in between would never be advertised). -/
+theorem extracted_after_authenticated_order :
+    Extracted.afterAuthenticatedOrder = ["pid_registry::monitor", "get_all_pids", "Msg::Spawn", "pg::monitor_scope",
+      "pg::monitor", "which_scopes_and_groups", "Msg::PgJoin", "Msg::Ready"] := by decide
+
+/-- the field-by-field hand-overs of `Fields.proxyMsg` (`handle_serialized`) and `Fields.deliver`
+(`handle_node`) are those of the source -/
+theorem extracted_payload_field_mapping :
+    Extracted.proxyCastFields = ["to", "what:args", "variant", "metadata"] ∧
+    Extracted.proxyCallFields = ["to", "tag", "what:args",
+      "timeout_ms:reply.get_timeout().map(|t|t.as_millis()asu64)", "variant", "metadata"] ∧
+    Extracted.deliverCastFields = ["variant:cast_args.variant", "args:cast_args.what", "metadata:cast_args.metadata"] ∧
+    Extracted.deliverCallFields = ["args:call_args.what", "reply:(tx,timeout).into()", "variant:call_args.variant",
+      "metadata:call_args.metadata"] := by decide
+
+#print axioms C20.composed_system_refines_its_components
+#print axioms C20.extracted_after_authenticated_order
+#print axioms C20.extracted_payload_field_mapping
+#print axioms C20.every_remotable_actor_is_advertised_by_the_sender
+#print axioms C20.an_actor_is_advertised_at_most_twice
+#print axioms C20.fields_reach_the_original_unchanged
+#print axioms C20.composed_wire_hands_each_frame_to_the_original_named_by_to
+#print axioms C20.composed_reply_goes_only_to_the_proxy_named_by_to
+#print axioms C20.composed_delivery_is_fifo_per_sender_with_the_same_fields
+#print axioms C20.composed_references_are_isolated
+#print axioms C20.composed_nothing_is_lost_on_the_shared_wire
+#print axioms C20.composed_replies_reach_exactly_their_caller
+#print axioms C20.composed_send_succeeds_iff_proxy_runs
+#print axioms C20.composed_transport_error_stops_every_reference
+#print axioms C20.composed_terminate_stops_the_reference_for_good
 
 end C20
